@@ -41,3 +41,44 @@ Theorem C06_quads_rows_conserved :
     appended_all stream_quad appended_quad (d_stmts d) (fst (ns_phase true d (enroll s))).
 Proof. intros. rewrite <- emitted_rows_is_concat. now apply quads_stream_rows with (s' := s'). Qed.
 Print Assumptions C06_quads_rows_conserved.
+
+(* ---- "... and those bytes parse back to the input": for EVERY options value the constructor accepts
+   (any flow class given explicitly or inferred, any frame size, any logical type the reader knows,
+   any table sizes up to 4096) an accepted run's bytes are read back by the parser model as exactly
+   the input statements -- nothing is left in a buffer, nothing is dropped.  [small]: frames shorter
+   than 128^10 bytes. ---- *)
+From PJ.Model Require Import Wire Decoder Spec.
+From PJ.Proofs Require Import WireRT BytesE2E EncStream EncGraphs BytesRoundTrip.
+
+Theorem C06_accepted_run_parses_back_triples :
+  forall (o : soptions) (s s' : stream) (d : sdata) (evs : list tev) (grouped : bool),
+    stream_new TripleStream Generic o = Ok s -> cfg_ok o (st_logical s) ->
+    p_nd (so_params o) = false -> fl_rows (st_flow s) = [] ->
+    triples_stream_frames d s = (s', evs) -> raised evs = None -> Forall small (emitted evs) ->
+    let r := parse_stream Generic grouped false (write_delimited (emitted evs)) in
+    flat_events r = flat_map event_of_triple (d_stmts d) /\ pr_end r = PEnd /\
+    length (pr_frames r) = length (emitted evs).
+Proof. exact triples_bytes_round_trip. Qed.
+Print Assumptions C06_accepted_run_parses_back_triples.
+
+Theorem C06_accepted_run_parses_back_quads :
+  forall (o : soptions) (s s' : stream) (d : sdata) (evs : list tev) (grouped : bool),
+    stream_new QuadStream Generic o = Ok s -> cfg_ok o (st_logical s) ->
+    p_nd (so_params o) = false -> fl_rows (st_flow s) = [] ->
+    quads_stream_frames d s = (s', evs) -> raised evs = None -> Forall small (emitted evs) ->
+    let r := parse_stream Generic grouped false (write_delimited (emitted evs)) in
+    flat_events r = flat_map event_of_quad (d_stmts d) /\ pr_end r = PEnd /\
+    length (pr_frames r) = length (emitted evs).
+Proof. exact quads_bytes_round_trip. Qed.
+Print Assumptions C06_accepted_run_parses_back_quads.
+
+Theorem C06_accepted_run_parses_back_graphs :
+  forall (o : soptions) (s s' : stream) (d : sdata) (evs : list tev) (grouped : bool),
+    stream_new GraphStream Generic o = Ok s -> cfg_ok o (st_logical s) ->
+    p_nd (so_params o) = false -> fl_rows (st_flow s) = [] -> forallb wf_quad (d_stmts d) = true ->
+    graphs_stream_frames_generic d s = (s', evs) -> raised evs = None -> Forall small (emitted evs) ->
+    let r := parse_stream Generic grouped false (write_delimited (emitted evs)) in
+    flat_events r = flat_map event_of_quad (d_stmts d) /\ pr_end r = PEnd /\
+    length (pr_frames r) = length (emitted evs).
+Proof. exact graphs_bytes_round_trip. Qed.
+Print Assumptions C06_accepted_run_parses_back_graphs.
